@@ -15,7 +15,7 @@ from fractions import Fraction
 
 import numpy as np
 
-from common import REPO, VERIF, coq_bool, coq_list, coq_nat, coq_string, coq_z, frac, qc, qc_list, qc_mat, sh
+from common import REPO, VERIF, source_pins, coq_bool, coq_list, coq_nat, coq_string, coq_z, frac, qc, qc_list, qc_mat, sh
 
 sys.path.insert(0, REPO)
 import autode as ade  # noqa: E402
@@ -62,6 +62,31 @@ RULE = ("streams: motion-oracle = Species.rotate / translate sequences (with and
 
 SLICE = ["lib/Sums.v", "lib/QcInst.v", "C06/Base.v", "C06/Model.v", "C06/Lemmas.v", "C06/Props.v", "gen/C06_Gen.v",
          "C11/Base.v", "C11/Model.v", "C11/Lemmas.v", "C11/Units.v", "C11/Props.v", "C11/Corr.v", "gen/C11_Gen.v"]
+# Functions the HAND-WRITTEN model coq/C11/Model.v was written from and that tr/translate_c11.py neither regenerates nor
+# pins structurally (it regenerates / pins exactly: Hessian.n_tr, n_v, _mass_weighted, _freq_scale_factor,
+# _eigenvalues_to_freqs, frequencies_proj; NumericalHessianCalculator.hessian, _n_rows, _idxs_to_calculate, calculate,
+# _calculate_in_serial, _diff_row, _cdiff_row, _shift_vector; HybridHessianCalculator.calculate, _remove_h_method_rows;
+# values._to and the unit tables come from tr/translate_units.py).  _new_species, _gradient and
+# HybridHessianCalculator.__init__ are only checked for a few statements by the translator, hence pinned here too.
+PINS = [("autode/hessians.py", q) for q in (
+    "Hessian._tr_vecs",                          # Model.tile, cross, rot_vec, tr_vecs
+    "Hessian._proj_matrix",                      # Model.mass_rep, mw_vec, norm, normalised; D (qr) is an oracle
+    "Hessian._proj_mass_weighted",               # D^T F D, whose [n_tr:, n_tr:] block feeds eigh / eigvalsh (oracles)
+    "Hessian.normal_modes_proj",                 # Model.s_prime, mode_raw, mode
+    "NumericalHessianCalculator.__init__",       # fresh state: zeros, _calculated_rows = [], shift in Angstrom
+    "NumericalHessianCalculator._hessian_shape",
+    "NumericalHessianCalculator._new_species",   # Model.displaced
+    "NumericalHessianCalculator._gradient",      # the gradient oracle uses the CURRENT self._method
+    "NumericalHessianCalculator._init_gradient",  # g0 = gradient of the undisplaced species (getter)
+    "HybridHessianCalculator.__init__",          # Model.hybrid_valid, do_c_diff = False, low-level method first
+)] + [
+    ("autode/atoms.py", "Atoms.are_linear"),     # Model.are_linear
+    ("autode/atoms.py", "Atoms.com"),            # Model.com
+    ("autode/atoms.py", "Atom.translate"),       # Model.displaced: the shift vector is ADDED to the coordinate
+    ("autode/config.py", "_ConfigClass.__setattr__"),   # freq_scale_factor validated to (0, 1]: premise 0 <= scale
+    ("autode/utils.py", "hashable"),             # a pool job is the bound method itself
+]
+
 PRE = ("From Coq Require Import ZArith QArith Qcanon List String Bool.\nFrom AV.lib Require Import QcInst.\n"
        "From AV.C11 Require Import Base Model Corr.\nFrom AV.gen Require Import C11_Gen.\nImport ListNotations.\n"
        "Open Scope string_scope.\n")
@@ -1051,7 +1076,7 @@ def correspondence_terms(ctx, fail):
     # _tr_vecs, n_tr / n_v, frequencies_proj, _mass_weighted on small molecules
     import autode.units as U
     cases = [(2, "linear"), (3, "general"), (3, "linear"), (4, "planar"), (4, "general"), (5, "general")] + ([] if ctx.quick else [(6, "general"), (4, "linear")])
-    for (n, shp) in cases:
+    def small_case(n, shp):
         X = np.round(gen_geometry(rng, n, shp) * 64) / 64 if shp != "linear" else gen_geometry(rng, n, shp)
         symbols = [rng.choice(ELEMENTS) for _ in range(n)]
         atoms = Atoms([Atom(s, *map(float, x)) for s, x in zip(symbols, X)])
@@ -1097,18 +1122,32 @@ def correspondence_terms(ctx, fail):
                 sq = np.sqrt(np.outer(mk, mk))
                 add(f"check_mass_weighted {coq_nat(n)} {coq_string(u.name)} {qc_mat(stored.tolist())} {qc_list(masses)} {qc_mat(sq.tolist())} {qc_mat(mw.tolist())}",
                     {"kind": "_mass_weighted", "symbols": symbols, "unit": u.name}, ("mw", n, shp, u.name))
-    # _eigenvalues_to_freqs directly: signs, zero, scale
-    hs = Hessian(np.eye(6), atoms=Atoms([Atom("H"), Atom("F", x=1.0)]))
-    lams = [0.0, 1.0, -1.0, 4.0e28, -4.0e28, 2.25e26, -6.25e24, 1e-30, -1e-30, 3.0e27, -3.0e27]
-    for cfg in (None, 0.5, 0.96):
-        Config.freq_scale_factor = cfg
+
+    for (n, shp) in cases:
         try:
-            out = [float(v) for v in hs._eigenvalues_to_freqs(np.array(lams))]
-        finally:
+            small_case(n, shp)
+        except Exception as e:  # noqa
             Config.freq_scale_factor = None
-        sqt = coq_list([f"({qc(abs(l))}, {qc(float(np.sqrt(abs(l))))})" for l in lams])
-        add(f"check_freqs {sqt} {qc(math.pi)} {qc(1.0 if cfg is None else cfg)} {qc_list(lams)} {qc_list(out)}",
-            {"kind": "_eigenvalues_to_freqs", "lambdas": lams, "scale": cfg}, ("freqs", cfg))
+            fail(f"Hessian|exception:{type(e).__name__}", f"correspondence input ({n} atoms, {shp}): {type(e).__name__}: {str(e)[:200]}",
+                 {"kind": "correspondence-input", "n_atoms": n, "shape": shp})
+            add("false", {"kind": "implementation-exception", "n_atoms": n, "shape": shp, "error": str(e)[:200]}, ("exc", n, shp))
+    # _eigenvalues_to_freqs directly: signs, zero, scale
+    try:
+        hs = Hessian(np.eye(6), atoms=Atoms([Atom("H"), Atom("F", x=1.0)]))
+        lams = [0.0, 1.0, -1.0, 4.0e28, -4.0e28, 2.25e26, -6.25e24, 1e-30, -1e-30, 3.0e27, -3.0e27]
+        for cfg in (None, 0.5, 0.96):
+            Config.freq_scale_factor = cfg
+            try:
+                out = [float(v) for v in hs._eigenvalues_to_freqs(np.array(lams))]
+            finally:
+                Config.freq_scale_factor = None
+            sqt = coq_list([f"({qc(abs(l))}, {qc(float(np.sqrt(abs(l))))})" for l in lams])
+            add(f"check_freqs {sqt} {qc(math.pi)} {qc(1.0 if cfg is None else cfg)} {qc_list(lams)} {qc_list(out)}",
+                {"kind": "_eigenvalues_to_freqs", "lambdas": lams, "scale": cfg}, ("freqs", cfg))
+    except Exception as e:  # noqa
+        Config.freq_scale_factor = None
+        fail(f"Hessian._eigenvalues_to_freqs|exception:{type(e).__name__}", f"_eigenvalues_to_freqs raised {type(e).__name__}: {str(e)[:200]}", {"kind": "correspondence-input"})
+        add("false", {"kind": "implementation-exception", "error": str(e)[:200]}, ("exc", "freqs"))
     # expensive terms first so that their shards start early
     order = heavy + [i for i in range(len(terms)) if i not in set(heavy)]
     return [terms[i] for i in order], [descr[i] for i in order]
@@ -1134,6 +1173,10 @@ def run(ctx):
 
 
 def _run(ctx, full):
+    pins_changed = source_pins(ctx.pid, PINS)
+    ctx.cov["source_pins"] = {"pinned": len(PINS), "changed": pins_changed}
+    if pins_changed:
+        ctx.log("source pins changed:", ", ".join(pins_changed))
     # 1. regenerate the generated parts of the model from the repository
     rc1, out1 = sh(["python3", f"{VERIF}/tr/translate_units.py"], timeout=120)
     rc2, out2 = sh(["python3", f"{VERIF}/tr/translate_c11.py"], timeout=120)
@@ -1188,6 +1231,9 @@ def _run(ctx, full):
     # 5. decide
     if not proofs_ok:
         ctx.proof_failure(info, found_any_input=bool(unexpected))
+    if pins_changed and not unexpected and not (corr_bad or corr_err) and proofs_ok:
+        ctx.violation("hand model no longer pinned to the source: " + ", ".join(pins_changed),
+                      {"kind": "source-pin", "changed": pins_changed}, found_input=False)
     if corr_bad or corr_err:
         if not unexpected:
             ctx.violation("model and implementation disagree (correspondence stream model-vs-impl) and no property-level "
